@@ -1,13 +1,45 @@
 (** C10 - Illegal operations panic, and single-entity failures change nothing.
     Statements only; proofs in Proofs/Atomic.v. *)
-From Arche Require Import Model.Base Model.Pool Model.World Model.Ops Proofs.Atomic Proofs.RelRefine Proofs.SpecDet.
+From Arche Require Import Model.Base Model.Pool Model.World Model.Ops Proofs.Frame Proofs.Atomic Proofs.GhostBase Proofs.RelRefine Proofs.QueryExact Proofs.SpecDet Proofs.Ghost.
 
-(** Whatever the operation and the state: a panic returns the very world it was given
-    (every observable as before, the world fully usable) and emits no event.  (Batch
-    operations that fail after they have started moving tables are not [Panic] but
-    [Undef] in the model: the property only speaks about single-entity operations.) *)
-Theorem C10_panic_atomic : forall w o w' evs, step w o = (w', Panic, evs) -> w' = w /\ evs = [].
+(** Whatever the operation and the state: a panic emits no event and returns [ghost_of w o]:
+    the very world it was given for every operation except the creation and exchange
+    operations, which call findOrCreateArchetype before their last argument check (or panic
+    inside it) and keep the empty graph nodes (and possibly one empty table) created on the
+    way - the code does exactly that, and the model follows it (Model/Ops.v).  (Batch
+    operations that fail after they have started moving tables are not [Panic] but [Undef]
+    in the model: the property only speaks about single-entity operations.) *)
+Theorem C10_panic_atomic : forall w o w' evs,
+  step w o = (w', Panic, evs) -> w' = ghost_of w o /\ evs = [].
 Proof. exact panic_atomic. Qed.
+
+Theorem C10_panic_atomic_other : forall w o w' evs,
+  ghost_op o = false -> step w o = (w', Panic, evs) -> w' = w /\ evs = [].
+Proof. exact panic_atomic_other. Qed.
+
+(** Every observable is as before and the world remains fully usable: after ANY failed call
+    on a world that refines an abstract store, the world refines THE SAME abstract store
+    (alive entities, masks, targets, values, registry), registered filters still list exactly
+    what they select, the pool and index (every handle, the future handle sequence), target
+    bits, locks, open queries, resources, listener and configuration are equal, every
+    non-empty table is the very same table and new tables are empty. *)
+Theorem C10_panic_observables : forall w A o w' evs,
+  R w A -> cache_ok w -> ids_reg A (ghost_ids o) ->
+  step w o = (w', Panic, evs) ->
+  evs = [] /\ R w' A /\ cache_ok w' /\
+  w_pool w' = w_pool w /\ w_index w' = w_index w /\ w_tbits w' = w_tbits w /\ frame w w' /\
+  (forall tid t, w_tables w !! tid = Some t -> t_ents t <> [] -> w_tables w' !! tid = Some t) /\
+  (forall tid t, w_tables w' !! tid = Some t -> w_tables w !! tid = None -> t_ents t = []) /\
+  (ghost_op o = false -> w' = w).
+Proof. exact panic_observables. Qed.
+
+Example C10_ghost_demo :
+  let w := run (world_init 2 2 64) [ORegister 10 false false; ORegister 11 false false] in
+  snd (fst (step w (ONew [0; 0]))) = Panic /\
+  length (w_nodes (fst (fst (step w (ONew [0; 0]))))) = S (length (w_nodes w)) /\
+  w_tables (fst (fst (step w (ONew [0; 0])))) = w_tables w /\
+  w_pool (fst (fst (step w (ONew [0; 0])))) = w_pool w.
+Proof. exact ghost_demo. Qed.
 
 (** Removed or recycled entities are refused by every single-entity operation. *)
 Theorem C10_dead_entity : forall w e,
@@ -55,5 +87,7 @@ Example C10_spec_example :
 Proof. exact demo_det_outcomes. Qed.
 
 Print Assumptions C10_panic_atomic.
+Print Assumptions C10_panic_atomic_other.
+Print Assumptions C10_panic_observables.
 Print Assumptions C10_outcome_is_specified.
 Print Assumptions C10_dead_target.
